@@ -83,6 +83,9 @@ class LasData:
 
     @xyz.setter
     def xyz(self, value) -> None:
+        # same as for x, y and z: the header's scales and offsets are the ones in force
+        self.points.offsets = self.header.offsets
+        self.points.scales = self.header.scales
         self.points[("x", "y", "z")] = value
 
     @property
